@@ -312,7 +312,7 @@ func (c *compiler) compile() (WarriorData, error) {
 	if err != nil {
 		return WarriorData{}, fmt.Errorf("invalid start expression: %s", err)
 	}
-	if startVal < 0 || startVal > len(code) {
+	if startVal < 0 || (startVal > 0 && startVal >= len(code)) {
 		return WarriorData{}, fmt.Errorf("invalid start value: %d", startVal)
 	}
 
